@@ -233,6 +233,14 @@ class C16(Check):
         for kind in ('openrpc', 'openapi-3.1.0'):
             out.append({'kind': kind, 'extractors': ['pydantic'], 'endpoints': 1, 'generations': 1, 'path': '/api', 'spec_opts': opts, 'naming': 'rpc-prefix',
                         'methods': [m(doc='none', annotated=False), m(doc='summary', annotated=False)]})
+        # method names that are distinct but close: snake_case / camelCase twins, dotted names sharing their last segment - each pair
+        # with DIFFERENT signatures (what is documented for one must not show up in the other)
+        for naming in ('case-twins', 'dotted-twins'):
+            for kind in ('openapi-3.1.0', 'openrpc'):
+                out.append({'kind': kind, 'extractors': ['pydantic'], 'endpoints': 1, 'generations': 1, 'path': '/api', 'spec_opts': opts, 'naming': naming,
+                            'methods': [m(doc='none', annotated=False, params=[['int', False]], ret='int'),
+                                        m(doc='none', annotated=False, params=[['str', False], ['ModelA', True]], ret='ModelA'),
+                                        m(doc='none', annotated=False, params=[], ret='missing')]})
         for kind, ex in (('openapi-3.1.0', ['docstring']), ('openrpc', ['docstring']), ('openapi-3.1.0', ['pydantic', 'docstring'])):
             out.append({'kind': kind, 'extractors': ex, 'endpoints': 1, 'generations': 1, 'path': '/api', 'spec_opts': opts, 'late_error': True,
                         'methods': [m(doc='raises', annotated=False), m(doc='full', annot={**annot, 'errors': 'none'})]})
